@@ -692,6 +692,19 @@ def rule_observe_records(ctx) -> None:
     ctx.floor("C18.BOUND", "weight writes in the pair loops", n_upd, 1)
 
 
+def rule_key_injective(ctx) -> None:
+    """"exactly one edge per unordered pair under its canonical key": the key must tell pairs apart.  _edge_key joins the two
+    ids with a separator; an id that contains the separator makes two different pairs share one key ("a→b","c" and "a","b→c"
+    both give a→b→c) - the second pair never gets an edge of its own."""
+    from ..util import separator_joined_ids
+    ek = ctx.func(GEL + ":_edge_key")
+    hits = separator_joined_ids(ek)
+    ctx.floor("C18.KEY", "key constructions in _edge_key", len([x for x in walk_no_defs(ek.node) if isinstance(x, ast.JoinedStr)]), 1)
+    ctx.check(not hits, "C18.KEY", f"{ek.qual}/key-tells-pairs-apart", ek.loc(hits[0][0]) if hits else ek.loc(), "the ids are escaped (or length-prefixed) before they are joined",
+              (f"`{src(hits[0][0])}` joins the ids with {hits[0][1]!r} as they are: ids containing it collide - the pairs ('a{hits[0][1]}b','c') and ('a','b{hits[0][1]}c') share one key and one edge record, "
+               "so there is not one edge per unordered pair") if hits else "")
+
+
 def rule_promotion_idempotent(ctx) -> None:
     """"promotion is idempotent": the clustering that feeds promotion must not see what promotion wrote.  apply_promotion
     attaches concept<->member edges under a relation of its own; the adjacency builder of merge / split candidates skips edges
@@ -872,6 +885,7 @@ def run(ctx) -> None:
     rule_orderins(ctx)
     rule_scope(ctx)
     rule_observe_records(ctx)
+    rule_key_injective(ctx)
     rule_promotion_idempotent(ctx)
     rule_gate(ctx)
     rule_no_module_state(ctx)
